@@ -316,6 +316,10 @@ for _k, _v in _LT.items():
     PROPS[_k].setdefault("level_text", _v)
     PROPS[_k].setdefault("level_note", "Proved about the model: the theorems listed in the evidence file (coverage.theorems)." + _LN_TAIL)
 
+# pinned sharing skeletons (calls of the copy-on-write primitives with their arguments, clones, flag assignments)
+COW_OF = {"C07": ("", "64"), "C08": ("",), "C13": ("",), "C11": ("",), "C12": ("",), "C16": ("",), "C01": ("",), "C02": ("",),
+          "C17": ("64",), "C19": ("64", "BSI32"), "C20": ("64", "BSI32")}
 for _p, _g in CMP_OF.items():
-    PROPS[_p]["theorems"] = list(PROPS[_p].get("theorems", [])) + CMP(*_g)
+    PROPS[_p]["theorems"] = list(PROPS[_p].get("theorems", [])) + CMP(*_g) + \
+        ["RModel.Facts.cowSkeleton%s_pinned" % g for g in COW_OF.get(_p, ())]
     PROPS[_p]["modules"] = list(PROPS[_p].get("modules", [])) + [CMP_MOD]
